@@ -156,8 +156,12 @@ def engine(kind, build, execute, case, ctx, eig_ops=()):
             with package(name + '.build'):
                 twin = build(case)
             args_t = copy.deepcopy(op)
+            if 'cores_twin' in op:
+                args_t['cores'] = op['cores_twin']      # the fresh twin works with another number of threads
             seen[key] = _run(lambda: execute(twin, args_t), name)
         st_t, res_t = seen[key]
+        if op.get('cores_twin') is not None and op.get('cores_twin') != op.get('cores') and op['op'] in ('calc_fint', 'calc_kT'):
+            tol = max(tol, 1e-12)       # the threaded integration kernels may add the partial sums in another order
         if st_t == 'error':
             raise Violation('%s.first-call[%s]' % (name, op['op']), 'on a freshly defined object: %s' % res_t)
         args_s = copy.deepcopy(op)
@@ -292,7 +296,8 @@ def _panel_op(draw, model):
     if o in ('calc_fint', 'calc_kT', 'calc_kG0_c', 'uvw', 'strain', 'stress', 'plot'):
         op['amps'] = [round(draw(gen.fl(-1., 1.)), 3) for _ in range(7)]
     if o in ('calc_fint', 'calc_kT', 'calc_kG0_c'):
-        op['nx'] = draw(st.integers(4, 9))
+        # an explicit integration grid for this call only, or the panel's default grid (nx = ny = None)
+        op['nx'] = draw(st.one_of(st.none(), st.integers(4, 9), st.integers(4, 9)))
     if o in ('uvw', 'strain', 'stress'):
         op['pts'] = draw(_points())
         op['cores'] = draw(st.integers(1, 16))
@@ -408,6 +413,10 @@ def build_panel_abs(case):
     for f in case['forces']:
         p.add_force(0.35 * case['a0'], 0.35 * case['b0'], f['fx'], f['fy'], f['fz'], cte=f['cte'])
     p.num_eigvalues = 3
+    # the default integration grid (attributes nx, ny) is part of the definition: the constructor sets it to the series orders it is
+    # given, and it stays what it was when m, n are changed later
+    if case.get('nxny'):
+        p.nx, p.ny = case['nxny']
     return p
 
 
@@ -481,6 +490,7 @@ def _set_op(draw, case):
 def _redefine_strategy(draw, tier='quick'):
     case = draw(_panel_strategy(tier))
     case['a0'], case['b0'], case['r0'] = case['a'], case['b'], case.get('r')
+    case['nxny'] = [case['m'], case['n']]
     model = case['model']
     ops = []
     for _ in range(draw(st.integers(2, 7 if tier == 'quick' else 10))):
@@ -730,7 +740,7 @@ def _cc_op(draw, names):
     return {'op': o, 'amps': [round(draw(gen.fl(-1., 1.)), 3) for _ in range(5)], 'inc': round(draw(gen.fl(0.1, 1.)), 2),
             'pts': draw(_points(6)), 'cores': draw(st.integers(1, 8)), 'method': draw(st.sampled_from(['trapz2d', 'simps2d'])),
             'scale': draw(st.sampled_from([1e-3, 1e-1])), 'full': draw(st.booleans()),
-            'finc': draw(st.sampled_from([1., 1., 0.5, 0.2]))}
+            'finc': draw(st.sampled_from([1., 1., 0.5, 0.2])), 'cores_twin': draw(st.integers(1, 8))}
 
 
 # =============================================================== ConeCyl re-defined between calls
@@ -832,6 +842,10 @@ def check_cc_redefine(case, ctx):
         with package(name + '.build'):
             twin = build_cc(copy.deepcopy(cur))
         args_t = copy.deepcopy(op)
+        if op.get('cores_twin') is not None:
+            args_t['cores'] = op['cores_twin']
+            if op['cores_twin'] != op.get('cores') and op['op'] in ('calc_fint', 'calc_kT'):
+                tol = max(tol, 1e-12)
         st_t, res_t = _run(lambda: exec_cc(twin, args_t), name)
         if st_t == 'error':
             raise Violation('%s.first-call[%s]' % (name, op['op']), 'on a freshly defined object: %s' % res_t)
